@@ -17,8 +17,13 @@ BOUNDED = ("At this commit the property is decided by its bounded runtime-contra
            "driven by enumerated / seeded inputs against an independent oracle; bounds in the evidence file); the deductive obligations for "
            "its functions are being added. Bounded, not proof, hence 'other'.")
 TECH_B = "runtime contracts on the real functions (bounded stand-in of the contract-based deductive check; VCs in progress)"
-for p in ["C03", "C04", "C08", "C09", "C10", "C11", "C12", "C13", "C15", "C16", "C17"]:
+for p in ["C03", "C04", "C05", "C06", "C07", "C08", "C09", "C10", "C11", "C12", "C13", "C14", "C15", "C16", "C17", "C18", "C20"]:
     add(p, "other", BOUNDED, TECH_B)
-pending = "stand-in still being built in this session; will be claimed once it runs green on the unchanged tree"
-for p in ["C05","C06","C07","C14","C18","C19","C20"]:
-    NOT_APPLICABLE[p] = pending
+add("C19", "proof",
+    "Every clause of the property is a discharged obligation over the real methods: both methods of each of the four scaling functions are "
+    "executed symbolically from the repository source (all paths), and inverse pairs in both directions, strict monotonicity of both maps, "
+    "agreement of the piecewise Bark branches at their break-points (continuity), the published mel / Bark closed forms (1000 Hz = 1000 mel "
+    "within 0.02), well-definedness of every division and logarithm on [0, 1e5] Hz, and OctaveScaling's rejection of low_hz <= 0 are proved "
+    "for all real frequencies and parameters (floats as reals, exp/ln as uninterpreted functions with inverse/monotonicity axioms). A bounded "
+    "stand-in additionally measures the floating-point round-off on finite grids.",
+    "contract-based deductive verification: symbolic execution of the real methods to terms, lemmas over the terms discharged by z3 (NRA + UF axioms)")
